@@ -48,6 +48,17 @@ func (b Bonder) Bond(ctx context.Context, mutable state.Mutable, tx *chain.Trans
 	address := tx.GetSponsor()
 	addressBytes := address[:]
 
+	// A transaction that is already bonded must not be bonded again: there is
+	// only one fee record per transaction, so only one bond would be released.
+	txID := tx.GetID()
+	alreadyBonded, err := b.db.Has(txID[:])
+	if err != nil {
+		return false, fmt.Errorf("failed to check for existing bond: %w", err)
+	}
+	if alreadyBonded {
+		return true, nil
+	}
+
 	pendingBalance, err := b.getPendingBondBalance(addressBytes)
 	if err != nil {
 		return false, err
@@ -82,7 +93,6 @@ func (b Bonder) Bond(ctx context.Context, mutable state.Mutable, tx *chain.Trans
 		return false, err
 	}
 
-	txID := tx.GetID()
 	if err := batch.Put(txID[:], binary.BigEndian.AppendUint64(nil, fee)); err != nil {
 		return false, fmt.Errorf("failed to write tx fee: %w", err)
 	}
